@@ -11,44 +11,56 @@ import (
 
 func pt(k string) { vsched.Point(k, nil) }
 
-func AddInt32(a *int32, d int32) int32       { pt("a.add"); return ra.AddInt32(a, d) }
-func AddInt64(a *int64, d int64) int64       { pt("a.add"); return ra.AddInt64(a, d) }
-func AddUint32(a *uint32, d uint32) uint32   { pt("a.add"); return ra.AddUint32(a, d) }
-func AddUint64(a *uint64, d uint64) uint64   { pt("a.add"); return ra.AddUint64(a, d) }
-func LoadInt32(a *int32) int32               { pt("a.load"); return ra.LoadInt32(a) }
-func LoadInt64(a *int64) int64               { pt("a.load"); return ra.LoadInt64(a) }
-func LoadUint32(a *uint32) uint32            { pt("a.load"); return ra.LoadUint32(a) }
-func LoadUint64(a *uint64) uint64            { pt("a.load"); return ra.LoadUint64(a) }
-func StoreInt32(a *int32, v int32)           { pt("a.store"); ra.StoreInt32(a, v) }
-func StoreInt64(a *int64, v int64)           { pt("a.store"); ra.StoreInt64(a, v) }
-func StoreUint32(a *uint32, v uint32)        { pt("a.store"); ra.StoreUint32(a, v) }
-func StoreUint64(a *uint64, v uint64)        { pt("a.store"); ra.StoreUint64(a, v) }
-func SwapInt32(a *int32, v int32) int32      { pt("a.swap"); return ra.SwapInt32(a, v) }
-func SwapInt64(a *int64, v int64) int64      { pt("a.swap"); return ra.SwapInt64(a, v) }
-func SwapUint32(a *uint32, v uint32) uint32  { pt("a.swap"); return ra.SwapUint32(a, v) }
-func SwapUint64(a *uint64, v uint64) uint64  { pt("a.swap"); return ra.SwapUint64(a, v) }
-func CompareAndSwapInt32(a *int32, o, n int32) bool    { pt("a.cas"); return ra.CompareAndSwapInt32(a, o, n) }
-func CompareAndSwapInt64(a *int64, o, n int64) bool    { pt("a.cas"); return ra.CompareAndSwapInt64(a, o, n) }
-func CompareAndSwapUint32(a *uint32, o, n uint32) bool { pt("a.cas"); return ra.CompareAndSwapUint32(a, o, n) }
-func CompareAndSwapUint64(a *uint64, o, n uint64) bool { pt("a.cas"); return ra.CompareAndSwapUint64(a, o, n) }
+func AddInt32(a *int32, d int32) int32      { pt("a.add"); return ra.AddInt32(a, d) }
+func AddInt64(a *int64, d int64) int64      { pt("a.add"); return ra.AddInt64(a, d) }
+func AddUint32(a *uint32, d uint32) uint32  { pt("a.add"); return ra.AddUint32(a, d) }
+func AddUint64(a *uint64, d uint64) uint64  { pt("a.add"); return ra.AddUint64(a, d) }
+func LoadInt32(a *int32) int32              { pt("a.load"); return ra.LoadInt32(a) }
+func LoadInt64(a *int64) int64              { pt("a.load"); return ra.LoadInt64(a) }
+func LoadUint32(a *uint32) uint32           { pt("a.load"); return ra.LoadUint32(a) }
+func LoadUint64(a *uint64) uint64           { pt("a.load"); return ra.LoadUint64(a) }
+func StoreInt32(a *int32, v int32)          { pt("a.store"); ra.StoreInt32(a, v) }
+func StoreInt64(a *int64, v int64)          { pt("a.store"); ra.StoreInt64(a, v) }
+func StoreUint32(a *uint32, v uint32)       { pt("a.store"); ra.StoreUint32(a, v) }
+func StoreUint64(a *uint64, v uint64)       { pt("a.store"); ra.StoreUint64(a, v) }
+func SwapInt32(a *int32, v int32) int32     { pt("a.swap"); return ra.SwapInt32(a, v) }
+func SwapInt64(a *int64, v int64) int64     { pt("a.swap"); return ra.SwapInt64(a, v) }
+func SwapUint32(a *uint32, v uint32) uint32 { pt("a.swap"); return ra.SwapUint32(a, v) }
+func SwapUint64(a *uint64, v uint64) uint64 { pt("a.swap"); return ra.SwapUint64(a, v) }
+func CompareAndSwapInt32(a *int32, o, n int32) bool {
+	pt("a.cas")
+	return ra.CompareAndSwapInt32(a, o, n)
+}
+func CompareAndSwapInt64(a *int64, o, n int64) bool {
+	pt("a.cas")
+	return ra.CompareAndSwapInt64(a, o, n)
+}
+func CompareAndSwapUint32(a *uint32, o, n uint32) bool {
+	pt("a.cas")
+	return ra.CompareAndSwapUint32(a, o, n)
+}
+func CompareAndSwapUint64(a *uint64, o, n uint64) bool {
+	pt("a.cas")
+	return ra.CompareAndSwapUint64(a, o, n)
+}
 func LoadPointer(a *unsafe.Pointer) unsafe.Pointer     { pt("a.load"); return ra.LoadPointer(a) }
 func StorePointer(a *unsafe.Pointer, v unsafe.Pointer) { pt("a.store"); ra.StorePointer(a, v) }
 
 type Int32 struct{ v ra.Int32 }
 
-func (x *Int32) Load() int32                      { pt("a.load"); return x.v.Load() }
-func (x *Int32) Store(v int32)                    { pt("a.store"); x.v.Store(v) }
-func (x *Int32) Add(d int32) int32                { pt("a.add"); return x.v.Add(d) }
-func (x *Int32) Swap(v int32) int32               { pt("a.swap"); return x.v.Swap(v) }
-func (x *Int32) CompareAndSwap(o, n int32) bool   { pt("a.cas"); return x.v.CompareAndSwap(o, n) }
+func (x *Int32) Load() int32                    { pt("a.load"); return x.v.Load() }
+func (x *Int32) Store(v int32)                  { pt("a.store"); x.v.Store(v) }
+func (x *Int32) Add(d int32) int32              { pt("a.add"); return x.v.Add(d) }
+func (x *Int32) Swap(v int32) int32             { pt("a.swap"); return x.v.Swap(v) }
+func (x *Int32) CompareAndSwap(o, n int32) bool { pt("a.cas"); return x.v.CompareAndSwap(o, n) }
 
 type Int64 struct{ v ra.Int64 }
 
-func (x *Int64) Load() int64                      { pt("a.load"); return x.v.Load() }
-func (x *Int64) Store(v int64)                    { pt("a.store"); x.v.Store(v) }
-func (x *Int64) Add(d int64) int64                { pt("a.add"); return x.v.Add(d) }
-func (x *Int64) Swap(v int64) int64               { pt("a.swap"); return x.v.Swap(v) }
-func (x *Int64) CompareAndSwap(o, n int64) bool   { pt("a.cas"); return x.v.CompareAndSwap(o, n) }
+func (x *Int64) Load() int64                    { pt("a.load"); return x.v.Load() }
+func (x *Int64) Store(v int64)                  { pt("a.store"); x.v.Store(v) }
+func (x *Int64) Add(d int64) int64              { pt("a.add"); return x.v.Add(d) }
+func (x *Int64) Swap(v int64) int64             { pt("a.swap"); return x.v.Swap(v) }
+func (x *Int64) CompareAndSwap(o, n int64) bool { pt("a.cas"); return x.v.CompareAndSwap(o, n) }
 
 type Uint32 struct{ v ra.Uint32 }
 
@@ -75,14 +87,14 @@ func (x *Bool) CompareAndSwap(o, n bool) bool { pt("a.cas"); return x.v.CompareA
 
 type Pointer[T any] struct{ v ra.Pointer[T] }
 
-func (x *Pointer[T]) Load() *T                      { pt("a.load"); return x.v.Load() }
-func (x *Pointer[T]) Store(v *T)                    { pt("a.store"); x.v.Store(v) }
-func (x *Pointer[T]) Swap(v *T) *T                  { pt("a.swap"); return x.v.Swap(v) }
-func (x *Pointer[T]) CompareAndSwap(o, n *T) bool   { pt("a.cas"); return x.v.CompareAndSwap(o, n) }
+func (x *Pointer[T]) Load() *T                    { pt("a.load"); return x.v.Load() }
+func (x *Pointer[T]) Store(v *T)                  { pt("a.store"); x.v.Store(v) }
+func (x *Pointer[T]) Swap(v *T) *T                { pt("a.swap"); return x.v.Swap(v) }
+func (x *Pointer[T]) CompareAndSwap(o, n *T) bool { pt("a.cas"); return x.v.CompareAndSwap(o, n) }
 
 type Value struct{ v ra.Value }
 
-func (x *Value) Load() any                      { pt("a.load"); return x.v.Load() }
-func (x *Value) Store(v any)                    { pt("a.store"); x.v.Store(v) }
-func (x *Value) Swap(v any) any                 { pt("a.swap"); return x.v.Swap(v) }
-func (x *Value) CompareAndSwap(o, n any) bool   { pt("a.cas"); return x.v.CompareAndSwap(o, n) }
+func (x *Value) Load() any                    { pt("a.load"); return x.v.Load() }
+func (x *Value) Store(v any)                  { pt("a.store"); x.v.Store(v) }
+func (x *Value) Swap(v any) any               { pt("a.swap"); return x.v.Swap(v) }
+func (x *Value) CompareAndSwap(o, n any) bool { pt("a.cas"); return x.v.CompareAndSwap(o, n) }
